@@ -58,7 +58,34 @@ def widen(ctx, mod) -> Dict:
     print("MATRIX %s: %d/%d breaking variants killed, %d/%d preserving variants silent, %d not applicable; %.1fs on %d workers"
           % (prop, killed, nb, silent, npres, sum(1 for r in results if r["outcome"].startswith("not applicable")),
              time.time() - t0, workers))
-    return {"mutation_matrix": {"breaking_total": nb, "breaking_killed": killed, "preserving_total": npres,
+    # generic mutant survey over the functions this property's rules anchor in (exploration, not a verdict)
+    survey = {}
+    try:
+        from .survey import survey_property
+        targeted = [q for q in sorted(ctx.analysed_funcs)]
+        if len(targeted) > 60:          # package-wide rules: keep to the functions named by obligations
+            targeted = sorted({o.function for o in ctx.obligations if o.function})
+        t1 = time.time()
+        res, truncated = survey_property(prop, targeted, root=root)
+        flagged = [r for r in res if r["fired"]]
+        surv = [r for r in res if not r["fired"]]
+        by_rule = {}
+        for r in flagged:
+            for rl in r["fired"][prop]["rules"]:
+                by_rule[rl] = by_rule.get(rl, 0) + 1
+        survey = {"functions": len(targeted), "mutants": len(res), "flagged": len(flagged), "survivors": len(surv),
+                  "truncated": truncated, "flagged_by_rule": by_rule, "wall_s": round(time.time() - t1, 1),
+                  "operators": ["comparison flip", "arithmetic operator swap", "integer constant + 1", "negated if/while test",
+                                "first two call arguments swapped", "sorted -> list", "statement deletion", ".copy()/np.copy removal"],
+                  "survivor_examples": ["%s: %s" % (r["function"].split("gaddlemaps.")[-1], r["mutant"]) for r in surv[:40]],
+                  "note": "generic syntactic mutants are not classified as breaking or preserving: a survivor is either "
+                          "equivalent / outside the property / caught by the test suite, or a missing rule - the list is "
+                          "triaged by hand (DESIGN.md 10.6); it does not influence the verdict"}
+        print("SURVEY %s: %d generic mutants in %d functions, %d flagged, %d survivors; %.1fs"
+              % (prop, len(res), len(targeted), len(flagged), len(surv), time.time() - t1))
+    except Exception as exc:                                   # the survey must never break a verdict
+        survey = {"error": repr(exc)}
+    return {"generic_mutant_survey": survey, "mutation_matrix": {"breaking_total": nb, "breaking_killed": killed, "preserving_total": npres,
                                 "preserving_silent": silent, "variants": results, "checker_defects": defects,
                                 "note": "variants are scratch copies of the current tree with one text edit each; "
                                         "they are parsed and analysed, never imported or executed; the matrix does "
